@@ -220,7 +220,10 @@ def run_part(binpath, part, tier, seed, prop, tmpdir):
             elif rc != 0:
                 stderr_text = open(pr["err"], errors="replace").read()
                 # a failure outside any case (e.g. synctest complaining after the last case)
-                if "FAIL" in stderr_text or "panic" in stderr_text:
+                only_race = "race detected during execution of test" in stderr_text and "panic" not in stderr_text
+                if only_race:
+                    pass  # race reports are collected from the GORACE log files and judged separately
+                elif "FAIL" in stderr_text or "panic" in stderr_text:
                     inconclusive.append(f"{test} shard {pr['k']}: exit {rc} outside a case: {stderr_text[-800:]}")
     races = parse_race_logs(race_prefix)
     return dict(recs=recs, crashes=crashes, races=races, n=n, inconclusive=inconclusive)
